@@ -82,12 +82,12 @@ PROPS = {
         "explanation": "TCP receive-path stream continuity",
     },
     "C11": {
-        "units": ["reasm", "message"],
+        "units": ["reasm", "reasmmap", "message"],
         "kani": [K_BITVEC, K_BUFID],
         "level": "proof",
         "technique": "Verus contracts on the extracted reassembly/{bitvec,fragment,segment}.rs functions; BinaryHeap by assumed specification",
-        "level_text": "Per-call reassembly contract on Segment::receive_packet for all fragments and all prior states satisfying the representation invariant: exactly the blocks FO..FO+ceil(len/8) are marked, the final fragment fixes the total length, a datagram is returned exactly when the final fragment has been seen and every block is covered, the returned header is the offset-0 header with total length restored and MF cleared, an incomplete arrival bumps the epoch that guards expiry; PAYLOAD: relative to the datagram d whose slices the buffer holds (ghost parameter), for any arrival order and any exact repetitions of fragments, the pieces stay block-disjoint slices of d and the returned payload equals d byte for byte (tiling lemma over the heap's pop order, permutation lemma for push); BitVec get/set/set_range/range_complete/complete against the set-of-bits view (loops closed by invariants); Fragment order verified.",
-        "level_note": "Trusted: Verus/Z3; ASSUMED specification of std BinaryHeap (new/push/pop: multiset + pop order non-increasing), Ordering::reverse; Message imported by contract (verified in unit message). Declared rewrites: closure in BitVec::complete -> loop, Message::new(vec![]) -> new_inner(Chunk::new(..)), &u8 auto-deref made explicit. NOT under contract: fragments that overlap received blocks only partially (excluded by the precondition: an arriving fragment is a slice of d that is entirely new or an exact repetition), Reassembly::{receive_packet,maybe_cull_segment} (FxHashMap entry API) hence the 'never mix' isolation frame; timer expiry is tokio (not decidable here). Preconditions: fragments as a conforming fragmenter emits them (ihl = 5, total_length = 20 + |payload|, FO*8 + |payload| + 20 <= 65535), epoch < 65535.",
+        "level_text": "Per-call reassembly contract on Segment::receive_packet for all fragments and all prior states satisfying the representation invariant: exactly the blocks FO..FO+ceil(len/8) are marked, the final fragment fixes the total length, a datagram is returned exactly when the final fragment has been seen and every block is covered, the returned header is the offset-0 header with total length restored and MF cleared, an incomplete arrival bumps the epoch that guards expiry; PAYLOAD: relative to the datagram d whose slices the buffer holds (ghost parameter), for any arrival order and any exact repetitions of fragments, the pieces stay block-disjoint slices of d and the returned payload equals d byte for byte (tiling lemma over the heap's pop order, permutation lemma for push); BitVec get/set/set_range/range_complete/complete against the set-of-bits view (loops closed by invariants); Fragment order verified. ISOLATION (unit reasmmap): Reassembly::receive_packet, for any table of buffers each holding slices of the datagram its key stands for, leaves every buffer with another key untouched (fragments of different datagrams never mix), keeps that table invariant, passes an unfragmented datagram through and flushes its key, returns for a completed datagram exactly the datagram its key stands for and frees the buffer, and otherwise reports the key and epoch for the expiry timer; BufId::from_header is the RFC 791 (source, destination, protocol, identification) tuple.",
+        "level_note": "Trusted: Verus/Z3; ASSUMED specification of std BinaryHeap (new/push/pop: multiset + pop order non-increasing), Ordering::reverse; Message imported by contract (verified in unit message). Declared rewrites: closure in BitVec::complete -> loop, Message::new(vec![]) -> new_inner(Chunk::new(..)), &u8 auto-deref made explicit. NOT under contract: fragments that overlap received blocks only partially (excluded by the precondition: an arriving fragment is a slice of d that is entirely new or an exact repetition), Reassembly::maybe_cull_segment (Entry API match) and timer expiry (tokio). In unit reasmmap the FxHashMap<BufId, Segment> is replaced by an opaque map with ASSUMED std semantics for remove and entry(..).or_insert(..) (declared rewrites); hashing is not modelled (BufId Eq/Hash agreement: Kani harness bufid, equality only). Preconditions: fragments as a conforming fragmenter emits them (ihl = 5, total_length = 20 + |payload|, FO*8 + |payload| + 20 <= 65535), epoch < 65535.",
         "assumptions": ["BinaryHeap behaves as a max-priority queue (assumed spec)", "fragment headers satisfy frag_hdr_ok"],
         "explanation": "reassembly bookkeeping per RFC 791 p.28 steps (8)-(17)",
     },
